@@ -194,4 +194,17 @@ ExactReduceAt(name, x, ind, axis) ==
                       k == c[ax + 1] + 1
                   IN  Fold(name, [p \in 1..Len(seg(k)) |-> x.v[Flat([c EXCEPT ![ax + 1] = seg(k)[p]], x.sh) + 1]])
   IN  [sh |-> rs, v |-> [j \in 1..Prod(rs) |-> entry(j)]]
+
+(* ------------------------- the value oracle, one entry point ----------- *)
+\* ExactUfunc(name, a): the array an exact ufunc has to produce.  a is the call record
+\*   [method, unary, x, y, axis, keepdims, idx, b]
+\* (x, y operand arrays; idx the indices of at / reduceat; b the scalar second operand of at)
+ExactUfunc(name, a) ==
+  CASE a.method = "call" /\ a.unary -> ExactCall1(name, a.x)
+    [] a.method = "call"       -> ExactCall2(name, a.x, a.y)
+    [] a.method = "reduce"     -> ExactReduce(name, a.x, a.axis, a.keepdims)
+    [] a.method = "accumulate" -> ExactAccumulate(name, a.x, a.axis)
+    [] a.method = "outer"      -> ExactOuter(name, a.x, a.y)
+    [] a.method = "at"         -> ExactAt(name, a.x, a.idx, a.b, a.unary)
+    [] a.method = "reduceat"   -> ExactReduceAt(name, a.x, a.idx, a.axis)
 =============================================================================
